@@ -147,7 +147,7 @@ def outcome_class(o):
 
 
 def proj_all(o):
-    return {k: v for k, v in o.items() if k not in ("events", "builds", "buildLines", "calls", "dialectAfter", "ids")}
+    return {k: v for k, v in o.items() if k not in ("events", "builds", "buildLines", "calls", "dialectAfter", "ids", "reads", "unexpected")}
 
 
 def proj_ast_text(o):
@@ -958,7 +958,8 @@ def run_C15(ctx: Ctx) -> Result:
     pool = [
         "Feature: a\n  Scenario: s\n    Given x\n",
         "# language: fr\nFonctionnalité: f\n  Scénario: s\n    Soit x\n",
-        "Feature: unterminated\n  Scenario: s\n    Given x\n      \"\"\"\n      open\n",
+        "# c1\nFeature: unterminated\n  # c2\n  Scenario: s\n    Given x\n      \"\"\"\n      open\n",
+        "Feature: z\n\n@tag with space\n  Scenario: s\n# late comment\n",
         "Feature: bad\n  nonsense here\n  Scenario: s\n   | dangling |\n  Rule: r\n  Feature: again\n",
         "#language: no-such\nFeature: x\n",
         "@tag with space\nFeature: x\n",
@@ -1038,6 +1039,9 @@ def run_C15(ctx: Ctx) -> Result:
     # model side: the same histories through the model give the fresh results too (ids offset)
     # interleavings at token-read granularity
     res.merge(interleave_check(ctx, pool))
+    # process-level and instance-level state: a long mixed sequence (accepted, rejected, aborted in stop mode,
+    # comments, bad tags at varying lines) parsed fresh and through one long-lived Parser+TokenMatcher
+    res.merge(streams.parse_stream(streams.doc_mix(rng, ctx.n(700, 7000), noisy=0.45, mutated=0.25), proj_all))
     # one Compiler (and TokenMatcher) through sequences of documents: each result as from fresh instances
     hist = streams.corpus_docs() + [gens.permuted_examples(rng) for _ in range(ctx.n(150, 1500))] + \
         streams.doc_mix(rng, ctx.n(200, 2000), noisy=0.0, mutated=0.0)
@@ -1560,6 +1564,25 @@ def run_C18(ctx: Ctx) -> Result:
         if got.strip("\n") != want.replace("\r\n", "\n").strip("\n") and got.replace("\r", "").strip("\n") != want.replace("\r", "").strip("\n"):
             res.fail("tokens", {"file": os.path.relpath(f, core.REPO)}, got[:300], want[:300], "token listing differs from the reference listing")
     res.stats["reference_listings"] = n
+    shared_fmt = impl.Parser(impl.TokenFormatterBuilder())
+    seq = sorted(glob.glob(os.path.join(core.REPO, "testdata", "bad", "*.feature")) +
+                 glob.glob(os.path.join(core.REPO, "testdata", "good", "*.feature")),
+                 key=lambda f: (os.path.basename(f), f))
+    for f in seq:
+        src = open(f, encoding="utf8", newline="").read()
+        try:
+            fresh_listing = impl.Parser(impl.TokenFormatterBuilder()).parse(src, impl.TokenMatcher())
+        except Exception:
+            fresh_listing = None
+        try:
+            shared_listing = shared_fmt.parse(src, impl.TokenMatcher())
+        except Exception:
+            shared_listing = None
+        if shared_listing != fresh_listing:
+            res.fail("history", {"file": os.path.relpath(f, core.REPO), "note": "one Parser(TokenFormatterBuilder()) reused"},
+                     (shared_listing or "")[:300], (fresh_listing or "")[:300],
+                     "token listing from a reused parser differs from a fresh one (tokens of an earlier document leak)")
+            break
     return res
 
 
